@@ -3003,6 +3003,10 @@ class _Simu(_IObserver, _params.Updatable, ABC):
 
         self._Check_dofs(problemType, unknowns)
 
+        if np.size(nodes) == 0:
+            # the selected nodes do not bound any loaded element: nothing to add
+            return
+
         new_Bc = BoundaryCondition(
             problemType, nodes, dofs, unknowns, dofsValues, f"Neumann {description}"
         )
